@@ -78,7 +78,7 @@ Print Assumptions C14_close_nil_means_complete.
 Print Assumptions C14_sink_fault_surfaces.
 Print Assumptions C14_model_loops_terminate.
 
-(** The readAt wrapper (file.go:1708): for every answer (n, err) of an
+(** The readAt wrapper (file.go, func readAt): for every answer (n, err) of an
     io.ReaderAt that honours its contract (n < len(p) => err != nil) the wrapper
     returns the same n; its error is nil exactly when the buffer was filled, and
     the reader's error is handed on unchanged otherwise. *)
@@ -89,7 +89,7 @@ Theorem C14_readat_never_masks : forall len r,
   (fst r < len -> snd (readat_wrap len r) = snd r /\ snd r <> RNone).
 Proof. exact readat_never_masks. Qed.
 
-(** File.ReadAt (file.go:604) over such a reader is such a reader: it never
+(** File.ReadAt (file.go) over such a reader is such a reader: it never
     returns fewer bytes than asked for together with a nil error. *)
 Theorem C14_file_readat_never_masks : forall size ra off len,
   (forall o l, readerat_ok l (ra o l)) -> readerat_ok len (file_readat size ra off len).
